@@ -252,6 +252,29 @@ Definition shrink_at_head (s : lstate) : Prop := exists n t, wq (ws s) = (WAdj, 
 (** the state reached from NewLimitListener(_, n) (maxCapacity = sz) by a label sequence *)
 Definition reach (sz n : Z) (ls : list label) : lstate := lrun ideal (linit ideal sz n) ls.
 
+(** * HTTPServer runtime: hot reloads and listener replacements
+
+    [r_spec] is the maxConnections of the last configured spec (runtime.spec after reload);
+    [RStep (LSetMax n)] is a hot reload (SetMaxConnection on the live listener, spec carried
+    over); [RRestart] stands for every path that rebuilds the listener from the spec in force:
+    a reload that needs a restart, and the recovery of a failed server (eventCheckFailed ->
+    startServer) - NewLimitListener(_, r_spec) on a fresh semaphore, no connection left. *)
+Record rstate := { r_spec : Z; r_l : lstate }.
+
+Inductive rlabel := RStep (l : label) | RRestart.
+
+Definition rinit (sz n : Z) : rstate := {| r_spec := n; r_l := linit ideal sz n |}.
+
+Definition rstep (sz : Z) (r : rstate) (l : rlabel) : rstate :=
+  match l with
+  | RStep l' => {| r_spec := match l' with LSetMax n => n | _ => r_spec r end; r_l := lstep ideal (r_l r) l' |}
+  | RRestart => {| r_spec := r_spec r; r_l := linit ideal sz (r_spec r) |}
+  end.
+
+Definition rrun (sz : Z) (r : rstate) (ls : list rlabel) : rstate := fold_left (rstep sz) ls r.
+
+Definition rlabel_ok (l : rlabel) : Prop := match l with RStep l' => label_ok l' | RRestart => True end.
+
 (** * MQTT broker connection cap *)
 
 (** connection ids are [N]; client ids are strings *)
